@@ -211,7 +211,20 @@ def demo_inputs(rng, tier):
     invalid.append({'n': 4, 'edges': e[:2] + [(e[2][0], e[2][1], -3)] + e[3:]})   # negative weight
     invalid.append({'n': 4, 'edges': e + [(3, 3, -1), (0, 1, 2)]})          # several at once
     invalid.append({'n': 3, 'edges': [(0, 0, 1)]})
-    return valid, invalid
+    # systematic: exactly one violation at EVERY position of the edge list (first, any middle, last line) of a 6-edge and
+    # a 7-edge graph (7 is divisible by no process count in 2..6, so 'the last m mod P edges' is never empty)
+    systematic = []
+    for bg in (base, {'n': 5, 'edges': list(base['edges']) + [(3, 4, 2)]}):
+        e = list(bg['edges'])
+        for i in range(len(e)):
+            for bad in (0, -2):
+                systematic.append({'n': bg['n'], 'edges': e[:i] + [(e[i][0], e[i][1], bad)] + e[i + 1:]})
+        for pos in (0, len(e) // 2, len(e)):
+            systematic.append({'n': bg['n'], 'edges': e[:pos] + [(1, 1, 3)] + e[pos:]})                       # self-loop
+            j = (pos + 2) % len(e)
+            systematic.append({'n': bg['n'], 'edges': e[:pos] + [(e[j][1], e[j][0], 4)] + e[pos:]})          # parallel, endpoints swapped
+    demo_inputs.systematic = systematic
+    return valid, invalid + systematic
 
 
 def check_C11(res, tier, seed, replay):
@@ -253,8 +266,8 @@ def check_C11(res, tier, seed, replay):
                 for k in (2, 3):
                     add('approx-mcb-dimacs', algo_flags[a] + ['--parallel=' + par, '--k', str(k)] + extra, k, None, g)
             add('collection-stats-dimacs', [], 0, None, g)
-        for g in invalid:
-            for (a, par, extra) in (combos[::3] if tier != 'quick' else combos[::7]):
+        for gi, g in enumerate(invalid):
+            for (a, par, extra) in (combos[::3] if tier != 'quick' else (combos[::7] if gi < len(invalid) - len(demo_inputs.systematic) else combos[gi % 7::17])):
                 add('mcb-dimacs', algo_flags[a] + ['--parallel=' + par] + extra, 0, None, g)
                 add('approx-mcb-dimacs', algo_flags[a] + ['--parallel=' + par, '--k', '2'] + extra, 2, None, g)
             add('collection-stats-dimacs', [], 0, None, g)
@@ -263,7 +276,9 @@ def check_C11(res, tier, seed, replay):
             for a in algo_flags:
                 for P in mpi_P:
                     add('mcb-dimacs-mpi', algo_flags[a], 0, P, g)
-        for g in (invalid[:3] if tier == 'quick' else invalid):
+        nhand = len(invalid) - len(demo_inputs.systematic)
+        last7 = [g for g in demo_inputs.systematic if len(g['edges']) == 7 and g['edges'][-1][2] <= 0]     # bad weight on the last line of the 7-edge file
+        for g in (invalid[:3] + last7[:1] if tier == 'quick' else invalid[:nhand] + last7 + demo_inputs.systematic[::5]):
             for P in mpi_P:
                 add('mcb-dimacs-mpi', [], 0, P, g)
         events = []
@@ -285,17 +300,26 @@ def check_C11(res, tier, seed, replay):
         with cf.ThreadPoolExecutor(max_workers=4) as ex:
             events += list(ex.map(go, mpijobs))
         # the MPI demo's own main() on vmpi: every rank's exit status, exact deadlock attribution, P up to 6
-        exe_v = vlib.build('h_mpidemo', [os.path.join(vlib.HARNESS, 'h_mpidemo.cpp')],
-                           flags=['-DVERIF_VTBB', '-pthread', '-DDEMO_SRC="%s"' % os.path.join(vlib.REPO, 'src', 'mcb-dimacs-mpi.cpp')],
-                           libs=('-lboost_timer', '-lboost_serialization', '-lboost_program_options', '-lboost_thread', '-lboost_system', '-lpthread'), shim=['vtbb', 'vmpi'])
+        # (the shim implements the collectives and blocking point-to-point calls of Boost.MPI; should a changed demo use a
+        #  facility it lacks, this extra stage is skipped with a note and the real mpiexec runs above remain the deciding ones)
+        try:
+            exe_v = vlib.build('h_mpidemo', [os.path.join(vlib.HARNESS, 'h_mpidemo.cpp')],
+                               flags=['-DVERIF_VTBB', '-pthread', '-DDEMO_SRC="%s"' % os.path.join(vlib.REPO, 'src', 'mcb-dimacs-mpi.cpp')],
+                               libs=('-lboost_timer', '-lboost_serialization', '-lboost_program_options', '-lboost_thread', '-lboost_system', '-lpthread'), shim=['vtbb', 'vmpi'])
+        except vlib.HarnessError as ex:
+            exe_v = None
+            res.cov['vmpi_demo_stage'] = 'skipped: the demo does not compile against the vmpi shim (%s)' % str(ex)[-400:]
+            print('NOTE: C11 vmpi demo stage skipped (the demo source does not compile against the shim); real mpiexec runs decide')
         vjobs = []
         for g in (valid[:4] if tier == 'quick' else valid[:12]):
             for a in algo_flags:
                 for P in (2, 4, 6):
                     vjobs.append((algo_flags[a], P, g))
         for g in invalid:
-            for P in (1, 2, 3, 6):
+            for P in (1, 2, 3, 4, 6):
                 vjobs.append(([], P, g))
+        if exe_v is None:
+            vjobs = []
 
         def gov(j):
             flags, P, g = j
@@ -324,7 +348,7 @@ def check_C11(res, tier, seed, replay):
         res.cov['evaluations'] = len(events)
         res.cov['distinct_nontrivial'] = len({(e['prog'], e['opts'], e['P'], json.dumps(e['edges'])) for e in events})
         res.cov['event_counts'] = {'sequential_runs': len(seqjobs), 'mpiexec_runs': len(mpijobs), 'vmpi_demo_runs': len(vjobs), 'invalid_input_runs': sum(1 for j in jobs if j[4] in invalid)}
-        res.cov['rule'] = 'run = (program, option combination, input file, process count); valid files incl. disconnected/forest/no trailing newline; invalid files: self-loop, parallel edge, zero weight, negative weight, several at once; mcb-dimacs-mpi under real mpiexec'
+        res.cov['rule'] = 'run = (program, option combination, input file, process count); valid files incl. disconnected/forest/no trailing newline; invalid files: self-loop, parallel edge, zero weight, negative weight, several at once, and one violation at every position of a 6-edge and a 7-edge file; mcb-dimacs-mpi under real mpiexec'
         res.sample(events[0])
         res.sample(events[-1])
         for rj in v['rejects']:
